@@ -343,7 +343,62 @@ def run_end2end(case, seed):
                     return dict(ok=False, sig="C10/end2end/closed-form/%s" % "FSC"[int(e.argmax())],
                                 msg="%s mesh=%s sym=%s cutoff=%s classical=%s: run_thermal_properties differs from the closed forms on get_mesh_dict() by %.3g" % (
                                     case["xtal"], mesh, sym, cut, classical, e.max()), resid=float(e.max()))
-    return dict(ok=True, nontrivial=True, transitions=12, outcome="ok:end2end")
+    # a crystal with imaginary modes (negative on-site term): every keyword of the public entry points, one at a time and in pairs,
+    # through run_thermal_properties and through the deprecated set_thermal_properties, which takes the same keywords
+    import itertools
+    import warnings
+
+    fc = np.array(ph.force_constants)
+    ph.run_mesh([2, 2, 2], is_mesh_symmetry=False)
+    f0 = np.sort(np.array(ph.get_mesh_dict()["frequencies"]).ravel())
+    fcut = f0[len(f0) // 3] + 0.37 * (f0[len(f0) // 3 + 1] - f0[len(f0) // 3])
+    ms = np.asarray(ph.supercell.masses)
+    fcu = fc.copy()
+    for i in range(len(ms)):
+        fcu[i, i] -= np.eye(3) * ms.min() * (fcut / U.VaspToTHz) ** 2
+    ph.force_constants = fcu
+    ntr = 12
+    for mesh, sym in (([3, 3, 2], True), ([2, 2, 2], False)):
+        ph.run_mesh(mesh, is_mesh_symmetry=sym, with_eigenvectors=not sym)
+        md = ph.get_mesh_dict()
+        fr = np.array(md["frequencies"])
+        if not ((fr < -0.05).any() and (fr > 0.05).any()):
+            raise RuntimeError("unstable model lost its purpose")
+        nb = fr.shape[1]
+        axes = {"pretend_real": (False, True), "cutoff_frequency": (0.05, 0.6 * fr.max()), "classical": (False, True), "band_indices": (None, [0, nb - 1, 2][:nb]),
+                "temperatures": (None, [10.0, 300.0, 77.0]), "is_projection": (False, True) if not sym else (False,)}
+        keys = list(axes)
+        for combo in itertools.product(*(range(len(axes[k])) for k in keys)):
+            if sum(1 for c_ in combo if c_) > 2:
+                continue
+            kw = {k: axes[k][c_] for k, c_ in zip(keys, combo)}
+            if kw["is_projection"] and kw["band_indices"] is not None:
+                continue  # unsupported combination (refused with a ValueError), see above
+            ph.run_thermal_properties(t_min=0, t_max=900, t_step=150, **kw)
+            d1 = {k: np.array(v) for k, v in ph.get_thermal_properties_dict().items() if v is not None}
+            with warnings.catch_warnings():
+                warnings.simplefilter("ignore")
+                ph.set_thermal_properties(t_min=0, t_max=900, t_step=150, **kw)
+            d2 = {k: np.array(v) for k, v in ph.get_thermal_properties_dict().items() if v is not None}
+            ntr += 2
+            lab = ", ".join("%s=%s" % (k, kw[k]) for k, c_ in zip(keys, combo) if c_) or "defaults"
+            for k in ("temperatures", "free_energy", "entropy", "heat_capacity"):
+                if d1[k].shape != d2[k].shape or not np.array_equal(d1[k], d2[k], equal_nan=True):
+                    return dict(ok=False, sig="C10/end2end/deprecated-entry-point/%s" % k, nontrivial=True,
+                                msg="%s mesh=%s (%s): set_thermal_properties and run_thermal_properties with the same keywords report different %s" % (case["xtal"], mesh, lab, k))
+            if kw["is_projection"]:
+                continue
+            ff = np.abs(fr) if kw["pretend_real"] else fr
+            if kw["band_indices"] is not None:
+                ff = ff[:, kw["band_indices"]]
+            want, _ = oracle(ff, md["weights"], d1["temperatures"], kw["cutoff_frequency"], kw["classical"], U)
+            got = np.stack([d1["free_energy"], d1["entropy"], d1["heat_capacity"]], axis=1)
+            e = np.abs(got - want).max(axis=0) / np.maximum(np.abs(want).max(axis=0), 1e-12)
+            if not np.isfinite(got).all() or e.max() > 1e-8:
+                return dict(ok=False, sig="C10/end2end/unstable/closed-form/%s" % "FSC"[int(np.nanargmax(e))], nontrivial=True, resid=float(np.nanmax(e)),
+                            msg="%s mesh=%s sym=%s (%s): run_thermal_properties on a crystal with imaginary modes differs from the closed forms over the documented set of modes by %.3g" % (
+                                case["xtal"], mesh, sym, lab, np.nanmax(e)))
+    return dict(ok=True, nontrivial=True, transitions=ntr, outcome="ok:end2end")
 
 
 def run_group(cases, seed):
